@@ -124,6 +124,27 @@ pub fn forge<U: CircuitUni>(h: &Honest<U>, f: &CellFault) -> Option<Vec<RowMajor
                 return None;
             }
         }
+        "slot_reassign" => {
+            // a witness value changed without propagating it: every bus participant of slot `row`
+            // gets the new value (delta 0 = boolean flip), no dependent row is recomputed
+            let cells = h.dec.bus.get(&(f.row as u64))?;
+            let first = cells.first()?;
+            let old = rd::<U>(&m[first.table], first.row, first.col);
+            let new = if f.delta == 0 {
+                if old == U::EF::ZERO {
+                    U::EF::ONE
+                } else if old == U::EF::ONE {
+                    U::EF::ZERO
+                } else {
+                    old + U::EF::ONE
+                }
+            } else {
+                old + U::EF::from(U::BF::from_u64(f.delta))
+            };
+            for c in cells {
+                wr::<U>(&mut m[c.table], c.row, c.col, new);
+            }
+        }
         "horner_chain_acc_forge" | "horner_backsolve" => {
             if !forge_horner::<U>(h, f, &mut m) || m[2].values == h.mats[2].values {
                 return None;
@@ -266,6 +287,16 @@ fn table_name(t: usize) -> &'static str {
 
 fn col_class<U: CircuitUni>(h: &Honest<U>, f: &CellFault) -> String {
     let d = <U::EF as BasedVectorSpace<U::BF>>::DIMENSION;
+    if f.kind == "slot_reassign" {
+        let mut names: Vec<&str> = h.dec.bus.get(&(f.row as u64)).map(|c| c.iter().map(|x| x.name).collect()).unwrap_or_default();
+        names.sort();
+        names.dedup();
+        // a reassigned constant is the known unconstrained-Const-value finding whatever reads it
+        if names.contains(&"const") {
+            return "const.value".to_string();
+        }
+        return format!("slot[{}]", names.join("+"));
+    }
     match f.table {
         2 => {
             if f.kind.starts_with("horner_") {
@@ -319,6 +350,13 @@ pub fn enumerate<U: CircuitUni>(h: &Honest<U>, rng: &mut Rng, tier: Tier) -> Vec
             v.push(CellFault { kind: "row_swap".into(), table: t, row: r1, col: 0, delta: 0, row2: r2 });
         }
     }
+    // witness values changed without propagation: every slot on the bus (capped)
+    let mut slots: Vec<u64> = h.dec.bus.keys().copied().collect();
+    rng.shuffle(&mut slots);
+    for slot in slots.into_iter().take(tier.pick(24, 200)) {
+        let delta = if rng.chance(1, 2) { 0 } else { 1 + rng.below(U::BF::ORDER_U64 - 1) };
+        v.push(CellFault { kind: "slot_reassign".into(), table: 0, row: slot as usize, col: 0, delta, row2: 0 });
+    }
     for hr in &h.dec.hrows {
         let delta = 1 + rng.below(U::BF::ORDER_U64 - 1);
         if hr.chain_start {
@@ -337,7 +375,7 @@ pub fn gen_program<U: CircuitUni>(rng: &mut Rng, tier: Tier) -> Program {
     let gcfg = GenCfg {
         min_calls: 4,
         max_calls: tier.pick(14, 30),
-        hints: false,
+        hints: rng.chance(1, 3),
         horner: *rng.pick(&[0, 1, 3, 3]),
         creator_aliasing: false,
         claim_privates: true,
